@@ -23,7 +23,7 @@ func init() {
 		Assumptions: []string{
 			"cells and patterns are valid UTF-8; upper-casing is rune-wise unicode.ToUpper (strings.ToUpper); regular expressions follow Go's regexp syntax with (?i) for ilike",
 		},
-		Stages:   stages(6000, 120000, 0, 200),
+		Stages:   stages(6000, 200000, 0, 200),
 		RunCase:  runC18,
 		Conclude: nil,
 	})
